@@ -207,8 +207,7 @@ public:
 
    virtual status_t TemplatedUnflatten(DataUnflattener &)
    {
-      MCRASH("Message::TagDataArray:Unflatten()  This method should never be called!");
-      return B_UNIMPLEMENTED;  // just to keep the compiler happy
+      return B_UNIMPLEMENTED;  // tags should not be serialized!  (but a corrupt or malicious buffer might claim to contain some anyway)
    }
 
    virtual uint32 TemplatedTypeCode() const {return B_TAG_TYPE;}
@@ -581,8 +580,7 @@ public:
 
    virtual status_t TemplatedUnflatten(DataUnflattener &)
    {
-      MCRASH("Message::PointerDataArray:Unflatten()  This method should never be called!");
-      return B_UNIMPLEMENTED;  // just to keep the compiler happy
+      return B_UNIMPLEMENTED;  // pointers should not be serialized!  (but a corrupt or malicious buffer might claim to contain some anyway)
    }
 
    virtual AbstractDataArrayRef Clone() const;
